@@ -1066,16 +1066,17 @@ class Consumer(object):
         In the case of an unrecoverable error, :func:`errback` is called on the
         :class:`Deferred` returned by :meth:`start()`.
         """
-        # Check for outstanding request.
-        if self._request_d:
-            log.debug("_do_fetch: Outstanding request: %r", self._request_d)
-            return
-
-        # Cleanup our _retry_call, if we have one
+        # Cleanup our _retry_call, if we have one (also when we return early
+        # below: a fired call left in place would block every later retry)
         if self._retry_call is not None:
             if self._retry_call.active():
                 self._retry_call.cancel()
             self._retry_call = None
+
+        # Check for outstanding request.
+        if self._request_d:
+            log.debug("_do_fetch: Outstanding request: %r", self._request_d)
+            return
 
         # Do we know our offset yet, or do we need to figure it out?
         if self._fetch_offset == OFFSET_EARLIEST or self._fetch_offset == OFFSET_LATEST:
